@@ -115,6 +115,8 @@ class Conv:
                 r = A.sqrt(x_ * x_ + y_ * y_)
             elif op == 'mul_add' and len(args) == 3:
                 r = self.el(args[0]) * self.el(args[1]) + self.el(args[2])
+            elif op == 'ite' and len(args) == 3:
+                r = self.ite(args[0], args[1], args[2])
             elif op == 'call':
                 name = self.S.terms[args[0]][1]
                 gargs = self.S.terms[args[1]][1]
@@ -123,6 +125,81 @@ class Conv:
                 r = A.fn(op, *[self.el(a) for a in args])
         self.memo[tid] = r
         return r
+
+    def ite(self, c, a, b):
+        """`if c { a } else { b }` merged by the engine (a fast path inside a helper).  When the two arms are equal under the
+        condition that selects the special one, the general arm is the value for every input; otherwise the term stays an
+        opaque symbol (and any comparison with a specification fails, naming it)."""
+        A_, B_ = self.el(a), self.el(b)
+        if A.eq(A_, B_):
+            return B_
+        t = self.S.terms[c]
+        neg = False
+        while t[0] == 'a' and t[1] == 'not' and len(t[2]) == 1:
+            neg = not neg
+            t = self.S.terms[t[2][0]]
+        if t[0] == 'a' and t[1] in ('eq', 'ne') and len(t[2]) == 2:
+            then_is_special = (t[1] == 'eq') != neg       # the arm taken when the two sides are EQUAL
+            x_, y_ = self.el(t[2][0]), self.el(t[2][1])
+            d_ = (x_ - y_).norm()
+            if d_.zero():                                   # the test always succeeds
+                return A_ if then_is_special else B_
+            if d_.is_const():                               # the two sides differ by a non-zero constant: never equal
+                return B_ if then_is_special else A_
+            try:
+                h = _hyp_from_difference(d_)
+            except Exception:
+                h = None
+            same = False
+            if h is not None and h[1] == 1:
+                # x == y fixes one atom: substitute it everywhere (also inside quotients and function arguments)
+                mp = {h[0]: h[2]}
+                try:
+                    same = A.eq(A.deep_substitute(A_, mp), A.deep_substitute(B_, mp))
+                except ZeroDivisionError:
+                    same = False
+            if not same:
+                with eq_hyp(x_, y_):
+                    same = A.eq(A_, B_)
+            if not same:
+                try:
+                    same = vanishes_under(A_ - B_, d_)
+                except Exception:
+                    same = False
+            if not same and (x_.is_const() or y_.is_const()):
+                # P == c with P a polynomial: every quotient by (a multiple of) P and every root of it becomes a constant
+                P_, c_ = (y_, x_.const()) if x_.is_const() else (x_, y_.const())
+                P_ = P_.norm()
+                mp = {}
+                K = A.CTX.kind
+                # k * sqrt[N]^(+-1) == c  <=>  sqrt[N] == c' (positive): then N == c'^2
+                if len(P_.t) == 1:
+                    (m_, k0), = P_.t.items()
+                    if len(m_) == 1 and K[m_[0][0]][0] == 'sqrt' and m_[0][1] in (1, -1) and c_ != 0:
+                        val = (c_ / k0) if m_[0][1] == 1 else (k0 / c_)
+                        if val > 0:
+                            mp[m_[0][0]] = El.c(val)
+                            P_, c_ = K[m_[0][0]][1], val * val
+                if not P_.has_defined() and not P_.zero():
+                    lmP = A.lead(P_)
+                    for v_ in (A_.atoms() | B_.atoms()):
+                        kd = K[v_]
+                        if kd[0] in ('inv', 'sqrt') and A.is_poly(kd[1]) and lmP in kd[1].t:
+                            k_ = kd[1].t[lmP] / P_.t[lmP]
+                            if A.eq(kd[1], P_ * El.c(k_)):
+                                val_ = El.c(k_ * c_)
+                                try:
+                                    mp[v_] = A.inv(val_) if kd[0] == 'inv' else A.sqrt(val_)
+                                except (ZeroDivisionError, ValueError):
+                                    pass
+                if mp:
+                    try:
+                        same = A.eq(A.deep_substitute(A_, mp), A.deep_substitute(B_, mp))
+                    except ZeroDivisionError:
+                        same = False
+            if same:
+                return B_ if then_is_special else A_
+        return A.fn('ite', A.fn('cond:' + self.S.show(c)[:200]), A_, B_)
 
     def val(self, v):
         """JSON value -> nested python: El leaves, ints, strings, dict for refs/enums"""
@@ -486,6 +563,8 @@ def run_custom(run, S, fn, name, spec, kw, depth=0):
     except SplitRoot as sp:
         run.split_ok = False
         for li, (guards, leaf) in enumerate(sp.paths):
+            if path_infeasible(S, guards):
+                continue
             env = dict(getattr(S, 'path_env', None) or {})
             cv0 = Conv(S)
             saved = dict(A.CTX.hyps)
@@ -521,6 +600,9 @@ def cmp_struct(run, S, name, got, exp, rule, where=None, tag='ret', hyp=None):
         try:
             if isinstance(y, El) or isinstance(x, El):
                 ok = A.eq(el_of(x), el_of(y))
+                if not ok and ACTIVE_PATH_DIFFS:
+                    # equal whenever one of the path's own equalities holds (its polynomial form divides the difference)
+                    ok = any(vanishes_under(el_of(x) - el_of(y), d_) for d_ in ACTIVE_PATH_DIFFS)
             else:
                 ok = (x == y)
         except (ValueError, ZeroDivisionError) as ex:
@@ -544,6 +626,26 @@ def _path_eq_pairs(S, guards):
             yield t[2]
 
 
+def path_infeasible(S, guards, cv=None):
+    """a path whose own conditions are contradictory as polynomial identities: an equality required between two things that
+    differ by a non-zero constant (`1 + 1 == 1`), or an inequality required between identical things"""
+    cv = cv or Conv(S)
+    for kind, tid, want in guards:
+        t = S.terms[tid]
+        if kind != 'ite' or t[0] != 'a' or t[1] not in ('eq', 'ne') or len(t[2]) != 2:
+            continue
+        try:
+            d = (cv.el(t[2][0]) - cv.el(t[2][1])).norm()
+        except Exception:
+            continue
+        must_equal = (want is True) == (t[1] == 'eq')
+        if must_equal and d.is_const() and not d.zero():
+            return True
+        if not must_equal and d.zero():
+            return True
+    return False
+
+
 def _leaf_equalities(S, guards):
     """exact equalities that hold on a path: {input atom name: term id it equals}.  Lets a correct special-case
     branch (if x == c { shortcut }) be compared with the general formula under x := c."""
@@ -558,6 +660,115 @@ def _leaf_equalities(S, guards):
     return eqs
 
 
+ACTIVE_PATH_DIFFS = []
+
+
+def _poly_form(d):
+    """d == 0 rewritten as P == 0 with P free of negative powers: denominators (inv[Q]^e, x^-e) multiplied away"""
+    K = A.CTX.kind
+    d = d.norm()
+    for _ in range(4):
+        negs = {}
+        dens = {}
+        for m in d.t:
+            for v, e in m:
+                if K[v][0] == 'inv' and e > 0:
+                    dens[v] = max(dens.get(v, 0), e)
+                elif e < 0 and K[v][0] != 'inv':
+                    negs[v] = min(negs.get(v, 0), e)
+        if not negs and not dens:
+            break
+        f = ONE
+        for v, e in dens.items():
+            f = f * (K[v][1] ** e)
+        if negs:
+            f = f.rawmul(El({tuple(sorted((v, -e) for v, e in negs.items())): Fr(1)}))
+        d = (d * f).norm()
+    return d if A.is_poly(d) and not d.zero() else None
+
+
+def vanishes_under(D, d):
+    """D == 0 whenever d == 0: the polynomial form of d divides D exactly (all atoms, defined or not, as indeterminates) -
+    a sufficient condition that needs no orientation of the hypothesis"""
+    D = D.norm()
+    if D.zero():
+        return True
+    h = _poly_form(d)
+    if h is None:
+        return False
+    if A.exact_div(D, h) is not None:
+        return True
+    Dp = _poly_form(D)
+    return Dp is not None and A.exact_div(Dp, h) is not None
+
+
+def _hyp_from_difference(d):
+    """d == 0 as a rewrite rule  v^k -> poly  (v a plain atom occurring in exactly one monomial, alone), after clearing
+    denominators; None when no such orientation exists"""
+    K = A.CTX.kind
+    d = d.norm()
+    if d.zero():
+        return None
+    if d.has_defined():
+        for _ in range(3):
+            dens = {}
+            for m in d.t:
+                for v, e in m:
+                    if K[v][0] == 'inv' and e > 0:
+                        dens[v] = max(dens.get(v, 0), e)
+            if not dens:
+                break
+            mul = ONE
+            for v, e in dens.items():
+                mul = mul * (K[v][1] ** e)
+            d = (d * mul).norm()
+        if d.zero() or d.has_defined():
+            return None
+    negs = {}
+    for m in d.t:
+        for v, e in m:
+            if e < 0 and K[v][0] == 'base':
+                negs[v] = min(negs.get(v, 0), e)
+    if negs:
+        mul = El({tuple(sorted((v, -e) for v, e in negs.items())): Fr(1)})
+        d = d.rawmul(mul).norm()
+        if d.zero():
+            return None
+    cands = []
+    for m, c in d.t.items():
+        if len(m) == 1 and m[0][1] >= 1 and K[m[0][0]][0] in ('base', 'fn') and m[0][0] not in A.CTX.hyps:
+            v = m[0][0]
+            if all(m2 is m or all(v2 != v for v2, _ in m2) for m2 in d.t):
+                cands.append((v, m, c))
+    if not cands:
+        return None
+    v, m, c = max(cands, key=lambda x: x[0])
+    rest = El({m2: c2 for m2, c2 in d.t.items() if m2 != m})
+    return v, m[0][1], rest * El.c(Fr(-1) / c)
+
+
+class eq_hyp:
+    """temporarily assume x == y (one rewrite hypothesis derived from x - y, if it can be oriented)"""
+
+    def __init__(self, x, y):
+        self.d = x - y
+
+    def __enter__(self):
+        self.saved = dict(A.CTX.hyps)
+        try:
+            h = _hyp_from_difference(self.d)
+        except Exception:
+            h = None
+        if h is not None:
+            A.CTX.hyps[h[0]] = (h[1], h[2])
+        return self
+
+    def __exit__(self, *exc):
+        A.CTX.hyps.clear()
+        A.CTX.hyps.update(self.saved)
+        return False
+
+
 class path_hyps:
     """Polynomial equalities of a path (`if q.magnitude2() == 1 { shortcut }`) installed as rewrite hypotheses for the
     duration of a comparison: P == Q with P - Q = c*v^k + rest (v in no other monomial) gives v^k -> -rest/c.
@@ -569,17 +780,49 @@ class path_hyps:
 
     def __enter__(self):
         self.saved = dict(A.CTX.hyps)
+        self.ndiffs = len(ACTIVE_PATH_DIFFS)
         cv = Conv(self.S, field_div=self.field_div)
         K = A.CTX.kind
         for a, b in _path_eq_pairs(self.S, self.guards):
+            try:
+                ACTIVE_PATH_DIFFS.append((cv.el(a) - cv.el(b)).norm())
+            except Exception:
+                pass
             if self.S.terms[a][0] == 'v' or self.S.terms[b][0] == 'v':
                 continue
             try:
                 d = (cv.el(a) - cv.el(b)).norm()
             except Exception:
                 continue
-            if d.zero() or d.has_defined():
+            if d.zero():
                 continue
+            if d.has_defined():
+                # clear the denominators: inv[P]^e terms multiplied away (P != 0 is the standing side condition)
+                for _ in range(3):
+                    dens = {}
+                    for m in d.t:
+                        for v, e in m:
+                            if K[v][0] == 'inv' and e > 0:
+                                dens[v] = max(dens.get(v, 0), e)
+                    if not dens:
+                        break
+                    mul = ONE
+                    for v, e in dens.items():
+                        mul = mul * (K[v][1] ** e)
+                    d = (d * mul).norm()
+                if d.zero() or d.has_defined():
+                    continue
+            # negative powers of plain atoms (x^-1 == 1): multiply through (x != 0 is implied by the division itself)
+            negs = {}
+            for m in d.t:
+                for v, e in m:
+                    if e < 0 and K[v][0] == 'base':
+                        negs[v] = min(negs.get(v, 0), e)
+            if negs:
+                mul = El({tuple(sorted((v, -e) for v, e in negs.items())): Fr(1)})
+                d = d.rawmul(mul).norm()
+                if d.zero():
+                    continue
             cands = []
             for m, c in d.t.items():
                 if len(m) == 1 and m[0][1] >= 1 and K[m[0][0]][0] == 'base' and m[0][0] not in A.CTX.hyps:
@@ -595,6 +838,7 @@ class path_hyps:
         return self
 
     def __exit__(self, *exc):
+        del ACTIVE_PATH_DIFFS[self.ndiffs:]
         A.CTX.hyps.clear()
         A.CTX.hyps.update(self.saved)
         return False
@@ -604,7 +848,7 @@ def _subst_struct(x, mapping):
     if isinstance(x, list):
         return [_subst_struct(y, mapping) for y in x]
     if isinstance(x, El):
-        return A.substitute(x, mapping)
+        return A.deep_substitute(x, mapping)
     return x
 
 
@@ -633,6 +877,8 @@ def check_value(run, S, name, expected, rule='K3 ring conformance', post=None, a
         return False
     ok = True
     for li, (guards, leaf) in enumerate(rets):
+        if len(rets) > 1 and path_infeasible(S, guards):
+            continue
         eqs = _leaf_equalities(S, guards) if len(rets) > 1 else {}
         if len(rets) > 1 and not eqs and any(kind == 'ite' for kind, _, _ in guards) and False:
             pass
@@ -675,6 +921,8 @@ def check_option_inverse(run, S, name, n, expect_fn=None, rule='K5 guard pass-se
     a = sm('a0', n)
     seen = {'None': 0, 'Some': 0}
     for li, (guards, leaf) in enumerate(ls):
+        if path_infeasible(S, guards):
+            continue
         sfx = '' if len(ls) == 2 else ':path%d' % li
         key = '%s:%s' % (run.prop, name)
         eqs = _leaf_equalities(S, guards)
